@@ -7,6 +7,7 @@ import Ufw.Tie.EndpFns.SinkPutChunk
 import Ufw.Tie.EndpFns.SourceGetChunk
 import Ufw.Tie.EndpFns.StsCbc
 import Ufw.Tie.EndpFns.StsLoops
+import Ufw.Tie.EndpFns.EndToEnd
 #print axioms Ufw.Props.C17.get_chunk_exact
 #print axioms Ufw.Props.C17.get_chunk_refuses
 #print axioms Ufw.Props.C17.get_atmost_le
@@ -82,3 +83,6 @@ import Ufw.Tie.EndpFns.StsLoops
 #print axioms Ufw.Tie.EndpFns.gen_sts_drain_cbc
 #print axioms Ufw.Tie.EndpFns.n_loop
 #print axioms Ufw.Tie.EndpFns.gen_sts_n_cbc
+#print axioms Ufw.Tie.EndpFns.rc64_err_neg
+#print axioms Ufw.Tie.EndpFns.c_put_chunk_exact
+#print axioms Ufw.Tie.EndpFns.c_get_chunk_exact
